@@ -1,5 +1,6 @@
 """Remove conj, real, and imag nodes from a form."""
 
+from ufl.algebra import Conj
 from ufl.algorithms.map_integrands import map_integrand_dags
 from ufl.constantvalue import ComplexValue
 from ufl.corealg.multifunction import MultiFunction
@@ -17,6 +18,13 @@ class ComplexNodeRemoval(MultiFunction):
     def real(self, o, a):
         """Apply to real."""
         return a
+
+    def inner(self, o, a, b):
+        """Apply to inner."""
+        # Rebuilding an inner product may sort its operands and
+        # wrap the result in a conj
+        r = self.reuse_if_untouched(o, a, b)
+        return r.ufl_operands[0] if isinstance(r, Conj) else r
 
     def imag(self, o, a):
         """Apply to imag."""
